@@ -32,11 +32,16 @@ def tracer():
 
 
 class Watchdog(BaseException):
-    """The wall-clock guard of run_job fired (a call or a projection never came back)."""
+    """A guard of run_job fired (a call or a projection never came back)."""
 
 
-LINE_BUDGET = 500000   # dns/btree.py lines one API call may execute (clear() of 48 keys needs ~2*10^4)
-WALL_LIMIT = 600       # seconds per script, last resort for loops outside traced calls
+# Three guards against a B-tree operation that never returns (seen with mutants that corrupt the
+# structure: MutableSet.clear() spins).  A spinning operation burns CPU, so the limits are on work
+# done, not on elapsed time - a stalled, overloaded machine cannot turn a good job into a violation:
+LINE_BUDGET = 500000   # deterministic: dns/btree.py lines ONE traced API call may execute
+                       # (clear() of 48 keys needs ~2*10^4)
+CPU_LIMIT = 120        # CPU-seconds (ITIMER_VIRTUAL) per script; a 150-call script needs ~0.05
+WALL_LIMIT = 7200      # seconds (ITIMER_REAL), very large last resort only
 
 _NAMES = {}
 _ORIGIN = dns.name.from_text("example.")
@@ -343,7 +348,9 @@ def run_job(job):
     script, cls, in_order, tid, cov = job
     tr = {"tid": tid, "cls": cls, "in_order": in_order, "ev": []}
     old = signal.signal(signal.SIGALRM, _alarm)
+    oldv = signal.signal(signal.SIGVTALRM, _alarm)
     signal.setitimer(signal.ITIMER_REAL, WALL_LIMIT)
+    signal.setitimer(signal.ITIMER_VIRTUAL, CPU_LIMIT)
     try:
         replay(script, cls, in_order, tid, cov, trace=tr)
     except BaseException as e:  # noqa: BLE001 - a driver failure / a call that never returns is an event nobody matches
@@ -352,7 +359,9 @@ def run_job(job):
         tr["ev"].append({"op": "driver-error", "exc": type(e).__name__, "detail": repr(e)[:200],
                          "during": script[len(tr["ev"])] if len(tr["ev"]) < len(script) else {}})
     finally:
+        signal.setitimer(signal.ITIMER_VIRTUAL, 0)
         signal.setitimer(signal.ITIMER_REAL, 0)
+        signal.signal(signal.SIGVTALRM, oldv)
         signal.signal(signal.SIGALRM, old)
     if cov:
         tr["cov"] = [list(a) for a in tracer().new_arcs()]
